@@ -22,7 +22,8 @@ theorem heightForLine_eq {W : Widths} (hW : W1 W) (c : Cfg) (width : Int) (heigh
       lineH (envFor W c width height wrap mw) w l line.length := by
   unfold heightForLine lineH
   rw [if_neg (by omega)]
-  simp only [textWidth_W1 hW, pwE_envFor, prefixWidths]
+  simp only [all_one_W1 hW, Bool.false_eq_true, and_false, if_false]
+  simp only [measWidth_W1 hW, textWidth_W1 hW, pwE_envFor, prefixWidths]
   cases h : c.prefixFn with
   | none =>
     simp only [Option.map_none, Nat.add_zero]
@@ -199,7 +200,7 @@ theorem nowrap_cursor_in_window {W : Widths} (hW : W1 W) (c : Cfg) (lines : List
     show scrollFor W c lines w height false cy cx s = _
     unfold scrollFor scrollNoWrap
     simp only [Bool.false_eq_true, if_false]
-    rw [hp0e, textWidth_W1 hW, textWidth_W1 hW, List.length_take, Nat.min_eq_left (by omega)]
+    rw [hp0e, measWidth_W1 hW, measWidth_W1 hW, List.length_take, Nat.min_eq_left (by omega)]
   generalize doScroll c.beyond s.vs c.top c.bottom cy height lines.length = V at *
   generalize doScroll c.beyond s.hs c.left c.right cx ((w : Int) - pwE e cy 0)
     (max ((lines.getD cy []).length : Int) (s.hs + w)) = H at *
